@@ -263,7 +263,13 @@ class Vector():
 			# (... and a list is not the tuple of its items)
 			h = 2 * len(x) + (1 if isinstance(x, tuple) else 2)
 			for elem in x:
-				h = (h * B + Vector._hash_element(elem)) % P
+				# (each member hash is scrambled before it is folded in, as the cells of a vector are:
+				# small ints hash to themselves, and (5, n) and (6, n - B) - like {5, n} and {6, n - B},
+				# whose member hashes arrive here as a tuple - came out alike)
+				e = (Vector._hash_element(elem) + 0x9E3779B97F4A7C15) & 0xFFFFFFFFFFFFFFFF
+				e = ((e ^ (e >> 30)) * 0xBF58476D1CE4E5B9) & 0xFFFFFFFFFFFFFFFF
+				e ^= e >> 27
+				h = (h * B + e) % P
 			h ^= h >> 31
 			return (h * 0x9E3779B97F4A7C15 + 0x51ED270B) % P
 
